@@ -47,12 +47,13 @@ func patternToMatcher(root, pattern string) (matcher, error) {
 }
 
 // regexEscaper escapes the characters that are special in a regex but are literals in a glob.
-// A ^ directly after [ negates a character class in both, so that one is left alone.
-var regexEscaper = strings.NewReplacer("[^", "[^", "+", `\+`, ".", `\.`, "(", `\(`, ")", `\)`, "{", `\{`, "}", `\}`, "|", `\|`, "^", `\^`, "$", `\$`)
+// A ^ directly after [ negates a character class in both, so that one is kept; like every other
+// single-character matcher a negated class must not match the path separator.
+var regexEscaper = strings.NewReplacer("[^", "[^/", "+", `\+`, ".", `\.`, "(", `\(`, ")", `\)`, "{", `\{`, "}", `\}`, "|", `\|`, "^", `\^`, "$", `\$`)
 
 func toRegexString(pattern string) string {
 	pattern = "^" + regexEscaper.Replace(pattern) + "$"
-	pattern = strings.ReplaceAll(pattern, "?", ".")           // match ? as any single char
+	pattern = strings.ReplaceAll(pattern, "?", "[^/]")        // match ? as any single non-separator char
 	pattern = strings.ReplaceAll(pattern, "*", "[^/]*")       // handle single (all) * components
 	pattern = strings.ReplaceAll(pattern, "[^/]*[^/]*", ".*") // handle ** components
 	pattern = strings.ReplaceAll(pattern, "/.*/", "/(.*/)?")  // Allow ** to match zero directories
